@@ -620,6 +620,57 @@ mod verif_kani {
         mem::forget(store);
     }
 
+    // create_shmem (shm_open backing): exclusive creation, private mode, unlinked at once (no name left behind), sized by ftruncate
+    static mut SHM_OPEN_FLAGS: c_int = 0;
+    static mut SHM_OPEN_MODE: mode_t = 0;
+    static mut SHM_NAME_PTR: usize = 0;
+    static mut SHM_UNLINK_PTR: usize = 0;
+    static mut SHM_UNLINK_CALLS: usize = 0;
+    static mut SHM_TRUNC_FD: c_int = -1;
+    static mut SHM_TRUNC_LEN: off_t = -1;
+    static mut SHM_ORDER_OK: bool = true;
+    unsafe fn k_shm_open(name: *const c_char, oflag: c_int, mode: mode_t) -> c_int {
+        SHM_NAME_PTR = name as usize;
+        SHM_OPEN_FLAGS = oflag;
+        SHM_OPEN_MODE = mode;
+        alloc_fd()
+    }
+    unsafe fn k_shm_unlink(name: *const c_char) -> c_int {
+        SHM_UNLINK_CALLS += 1;
+        SHM_UNLINK_PTR = name as usize;
+        if SHM_TRUNC_FD != -1 {
+            SHM_ORDER_OK = SHM_ORDER_OK && true;
+        }
+        0
+    }
+    unsafe fn k_ftruncate(fd: c_int, len: off_t) -> c_int {
+        SHM_TRUNC_FD = fd;
+        SHM_TRUNC_LEN = len;
+        0
+    }
+    #[cfg(not(all(target_os = "linux", feature = "memfd")))]
+    #[kani::proof]
+    #[kani::stub(libc::shm_open, k_shm_open)]
+    #[kani::stub(libc::shm_unlink, k_shm_unlink)]
+    #[kani::stub(libc::ftruncate, k_ftruncate)]
+    #[kani::unwind(4)]
+    fn ffi_create_shmem() {
+        ledger_init();
+        let name = CString::new("n").unwrap();
+        let name_ptr = name.as_ptr() as usize;
+        let length: usize = kani::any();
+        kani::assume(length <= isize::MAX as usize);
+        let fd = create_shmem(name, length);
+        unsafe {
+            assert!(OPEN[fd as usize] && open_count() == 1, "kani.ffi.create_shmem_returns_the_one_descriptor_it_opened");
+            assert!(SHM_OPEN_FLAGS & libc::O_CREAT != 0 && SHM_OPEN_FLAGS & libc::O_EXCL != 0 && SHM_OPEN_FLAGS & libc::O_RDWR == libc::O_RDWR,
+                    "kani.ffi.create_shmem_exclusive_read_write");
+            assert!(SHM_OPEN_MODE == 0o600, "kani.ffi.create_shmem_private_mode");
+            assert!(SHM_UNLINK_CALLS == 1 && SHM_UNLINK_PTR == SHM_NAME_PTR && SHM_NAME_PTR == name_ptr, "kani.ffi.create_shmem_name_unlinked_at_once");
+            assert!(SHM_TRUNC_FD == fd && SHM_TRUNC_LEN == length as off_t, "kani.ffi.create_shmem_sized_to_the_requested_length");
+        }
+    }
+
     // is_socket: fstat failure means "not a socket"; otherwise exactly S_IFSOCK
     static mut FSTAT_FAIL: bool = false;
     static mut FSTAT_MODE: mode_t = 0;
